@@ -1,6 +1,6 @@
 (* C09P.v — the text functions of the JAX loaders invert the renderers (byte level) *)
 From Coq Require Import Lia.
-From HpoV Require Import Gen.Consts Model.Base Model.Group Model.Onto Model.Binary Model.TermId Model.Text
+From HpoV Require Import Gen.Consts Model.Base Model.Group Model.Onto Model.Binary Model.TermId Model.Text Proofs.C20P
   Proofs.BaseP Proofs.SetsP.
 
 (* ---------------- joining and splitting on one byte ---------------- *)
@@ -73,3 +73,566 @@ Qed.
 Theorem isa_line_id idtxt label : ~ In 32 idtxt ->
   split_once1 32 (idtxt ++ 32 :: label) [] = Some (idtxt, label).
 Proof. intros H. apply (split_once1_first idtxt [] label 32 H). Qed.
+
+(* ------------------------------------------------------------------------------------------ *)
+(* lines                                                                                        *)
+(* ------------------------------------------------------------------------------------------ *)
+
+Definition plain_line (l : bytes) : Prop := ~ In NL l /\ (forall r, rev l <> CR :: r).
+
+Lemma strip_cr_plain l : plain_line l -> strip_cr l = l.
+Proof.
+  intros [_ H]. unfold strip_cr. destruct (rev l) as [|c r] eqn:E; [reflexivity|].
+  destruct (N.eqb_spec c CR) as [->|]; [exfalso; exact (H r eq_refl)|reflexivity].
+Qed.
+
+Lemma last_nonempty_rev {A} (ls : list (list A)) l0 : ls <> [] -> last ls l0 <> [] ->
+  match rev ls with [] :: r => rev r | _ => ls end = ls.
+Proof.
+  intros Hne Hlast. destruct (rev ls) as [|x r] eqn:E; [reflexivity|].
+  destruct x; [|reflexivity]. exfalso. apply Hlast.
+  assert (ls = rev r ++ [[]]) as -> by (rewrite <- (rev_involutive ls), E; reflexivity).
+  apply last_last.
+Qed.
+
+(* `lines` of the lines joined by \n gives the lines back (non-empty last line, no \n inside, no
+   trailing \r) — with or without a final \n *)
+Theorem lines_join ls : ls <> [] -> Forall plain_line ls -> last ls [] <> [] ->
+  lines (join_byte NL ls) = ls.
+Proof.
+  intros Hne Hall Hlast. unfold lines. cbv zeta.
+  rewrite split_byte_join; [|exact Hne|eapply Forall_impl; [|exact Hall]; intros l [H _]; exact H].
+  pose proof (last_nonempty_rev ls [] Hne Hlast) as L. cbv beta in L |- *.
+  match goal with |- map strip_cr ?X = ls => replace X with ls by (symmetry; exact L) end.
+  rewrite <- (map_id ls) at 2. apply map_ext_in. intros l Hl. apply strip_cr_plain.
+  rewrite Forall_forall in Hall. apply Hall, Hl.
+Qed.
+
+(* ------------------------------------------------------------------------------------------ *)
+(* one [Term] stanza                                                                            *)
+(* ------------------------------------------------------------------------------------------ *)
+
+Definition kv (k v : bytes) : bytes := k ++ 58 :: 32 :: v.
+
+Definition s_is_a : bytes := [105; 115; 95; 97].
+Definition s_bang : bytes := [32; 33; 32].            (* " ! " *)
+
+(* the lines of a [Term] stanza as the JAX file writes them: id, name, other tags, is_a lines with
+   a label, is_obsolete, replaced_by *)
+Definition stanza_lines (t : term) (parents : list (N * bytes)) (extras : list (bytes * bytes)) : list bytes :=
+  kv s_id (show (t_id t)) :: kv s_name (t_name t)
+  :: map (fun e => kv (fst e) (snd e)) extras
+  ++ map (fun p => kv s_is_a (show (fst p) ++ s_bang ++ snd p)) parents
+  ++ (if t_obsolete t then [kv s_is_obsolete s_true] else [])
+  ++ (match t_repl t with Some r => [kv s_replaced_by (show r)] | None => [] end).
+
+Definition ignored_key (k : bytes) : Prop :=
+  ~ In 58 k /\ k <> s_id /\ k <> s_name /\ k <> s_is_obsolete /\ k <> s_replaced_by.
+Definition other_key (k : bytes) : Prop := ignored_key k /\ k <> s_is_a.
+
+Lemma list_eqb_neq (a b : bytes) : a <> b -> list_eqb a b = false.
+Proof.
+  intros H. destruct (list_eqb a b) eqn:E; [|reflexivity]. apply SetsP.list_eqb_eq in E. contradiction.
+Qed.
+
+Definition fields_fold := foldM (fun (f : obo_fields) (line : bytes) =>
+           let '(id, name, obs, repl) := f in
+           match split_once2 58 32 line [] with
+           | None => Panic
+           | Some (k, v) =>
+               if list_eqb k s_id then Ok (Some v, name, obs, repl)
+               else if list_eqb k s_name then Ok (id, Some v, obs, repl)
+               else if list_eqb k s_is_obsolete then Ok (id, name, Some v, repl)
+               else if list_eqb k s_replaced_by then Ok (id, name, obs, Some v)
+               else Ok f
+           end).
+
+Lemma term_fields_is_fold ls : term_fields ls = fields_fold ls (None, None, None, None).
+Proof. reflexivity. Qed.
+
+Lemma fields_ignored (ls : list (bytes * bytes)) : forall f, Forall (fun e => ignored_key (fst e)) ls ->
+  fields_fold (map (fun e => kv (fst e) (snd e)) ls) f = Ok f.
+Proof.
+  induction ls as [|[k v] ls IH]; intros f Hall; [reflexivity|].
+  inversion Hall as [|? ? [H58 [H1 [H2 [H3 H4]]]] Hrest]; subst. cbn [map fst snd] in *.
+  destruct f as [[[id name] obs] repl]. unfold fields_fold. cbn [foldM].
+  change (split_once2 58 32 (kv k v) []) with (split_once2 58 32 (k ++ 58 :: 32 :: v) []).
+  rewrite (key_value_line k v H58).
+  rewrite (list_eqb_neq _ _ H1), (list_eqb_neq _ _ H2), (list_eqb_neq _ _ H3), (list_eqb_neq _ _ H4). cbn [bind].
+  apply (IH (id, name, obs, repl) Hrest).
+Qed.
+
+Lemma is_a_ignored : ignored_key s_is_a.
+Proof.
+  unfold ignored_key, s_is_a, s_id, s_name, s_is_obsolete, s_replaced_by.
+  split; [cbn [In]; intros [H|[H|[H|[H|[]]]]]; discriminate|]. repeat split; discriminate.
+Qed.
+
+Lemma fields_isa (ps : list (N * bytes)) : forall f,
+  fields_fold (map (fun p => kv s_is_a (show (fst p) ++ s_bang ++ snd p)) ps) f = Ok f.
+Proof.
+  intros f.
+  rewrite <- (map_map (fun p : N * bytes => (s_is_a, show (fst p) ++ s_bang ++ snd p)) (fun e => kv (fst e) (snd e))).
+  apply fields_ignored. apply Forall_forall. intros e He. apply in_map_iff in He as [p [<- _]]. cbn [fst].
+  exact is_a_ignored.
+Qed.
+
+Lemma fields_fold_app l1 l2 f : fields_fold (l1 ++ l2) f = do f' <- fields_fold l1 f ;; fields_fold l2 f'.
+Proof.
+  unfold fields_fold. revert f. induction l1 as [|x l1 IH]; intros f; cbn [app foldM]; [reflexivity|].
+  match goal with |- bind ?r _ = _ => destruct r as [f1| | |] end; cbn [bind]; try reflexivity. apply IH.
+Qed.
+
+(* the fields collected from a rendered stanza *)
+Theorem term_fields_render t parents extras : Forall (fun e => other_key (fst e)) extras ->
+  term_fields (stanza_lines t parents extras) =
+    Ok (Some (show (t_id t)), Some (t_name t),
+        (if t_obsolete t then Some s_true else None),
+        (match t_repl t with Some r => Some (show r) | None => None end)).
+Proof.
+  intros Hex. rewrite term_fields_is_fold. unfold stanza_lines.
+  change (kv s_id (show (t_id t)) :: kv s_name (t_name t) :: ?rest)
+    with ([kv s_id (show (t_id t)); kv s_name (t_name t)] ++ rest).
+  rewrite fields_fold_app.
+  assert (fields_fold [kv s_id (show (t_id t)); kv s_name (t_name t)] (None, None, None, None)
+          = Ok (Some (show (t_id t)), Some (t_name t), None, None)) as ->.
+  { unfold fields_fold. cbn [foldM].
+    change (split_once2 58 32 (kv s_id (show (t_id t))) []) with (split_once2 58 32 (s_id ++ 58 :: 32 :: show (t_id t)) []).
+    rewrite (key_value_line s_id (show (t_id t))) by (unfold s_id; cbn; intros [H|[H|[]]]; discriminate).
+    change (list_eqb s_id s_id) with true. cbn [bind].
+    change (split_once2 58 32 (kv s_name (t_name t)) []) with (split_once2 58 32 (s_name ++ 58 :: 32 :: t_name t) []).
+    rewrite (key_value_line s_name (t_name t)) by (unfold s_name; cbn; intros [H|[H|[H|[H|[]]]]]; discriminate).
+    reflexivity. }
+  cbn [bind]. rewrite fields_fold_app, (fields_ignored extras _ (Forall_impl _ (fun e (H : other_key (fst e)) => proj1 H) Hex)).
+  cbn [bind]. rewrite fields_fold_app, fields_isa. cbn [bind].
+  destruct (t_obsolete t); destruct (t_repl t) as [r|]; cbn [app]; unfold fields_fold; cbn [foldM].
+  - change (split_once2 58 32 (kv s_is_obsolete s_true) []) with (split_once2 58 32 (s_is_obsolete ++ 58 :: 32 :: s_true) []).
+    rewrite (key_value_line s_is_obsolete s_true) by (unfold s_is_obsolete; cbn; intuition discriminate).
+    change (list_eqb s_is_obsolete s_id) with false. change (list_eqb s_is_obsolete s_name) with false.
+    change (list_eqb s_is_obsolete s_is_obsolete) with true. cbn [bind].
+    change (split_once2 58 32 (kv s_replaced_by (show r)) []) with (split_once2 58 32 (s_replaced_by ++ 58 :: 32 :: show r) []).
+    rewrite (key_value_line s_replaced_by (show r)) by (unfold s_replaced_by; cbn; intuition discriminate).
+    reflexivity.
+  - change (split_once2 58 32 (kv s_is_obsolete s_true) []) with (split_once2 58 32 (s_is_obsolete ++ 58 :: 32 :: s_true) []).
+    rewrite (key_value_line s_is_obsolete s_true) by (unfold s_is_obsolete; cbn; intuition discriminate).
+    reflexivity.
+  - change (split_once2 58 32 (kv s_replaced_by (show r)) []) with (split_once2 58 32 (s_replaced_by ++ 58 :: 32 :: show r) []).
+    rewrite (key_value_line s_replaced_by (show r)) by (unfold s_replaced_by; cbn; intuition discriminate).
+    reflexivity.
+  - reflexivity.
+Qed.
+
+(* ---------------- the whole stanza: term_from_obo and add_connections ---------------- *)
+
+Definition clean (v : bytes) : Prop := ~ In NL v /\ ~ In CR v.
+
+Lemma clean_plain l : clean l -> plain_line l.
+Proof.
+  intros [H1 H2]. split; [exact H1|]. intros r E. apply H2. apply in_rev. rewrite E. left. reflexivity.
+Qed.
+
+Lemma clean_app a b : clean a -> clean b -> clean (a ++ b).
+Proof. intros [A1 A2] [B1 B2]. split; intros H; apply in_app_iff in H as [H|H]; auto. Qed.
+
+Lemma clean_show n : clean (show n) /\ ~ In 32 (show n).
+Proof.
+  destruct (show_shape n) as [ds [E [_ Hd]]]. rewrite E.
+  assert (forall c, c = NL \/ c = CR \/ c = 32 -> ~ In c ([72; 80; 58] ++ ds)) as K.
+  { intros c Hc Hin. apply in_app_iff in Hin as [Hin|Hin].
+    - unfold NL, CR in Hc. cbn in Hin. lia.
+    - rewrite Forall_forall in Hd. specialize (Hd c Hin). unfold NL, CR in Hc. lia. }
+  repeat split; apply K; auto.
+Qed.
+
+Lemma clean_kv k v : clean k -> clean v -> clean (kv k v).
+Proof.
+  intros Hk Hv. unfold kv. apply clean_app; [exact Hk|].
+  change (58 :: 32 :: v) with ([58; 32] ++ v). apply clean_app; [|exact Hv].
+  split; unfold NL, CR; cbn; lia.
+Qed.
+
+Lemma clean_const (l : bytes) : forallb (fun c => negb (c =? NL) && negb (c =? CR)) l = true -> clean l.
+Proof.
+  intros H. rewrite forallb_forall in H. split; intros Hin; specialize (H _ Hin); unfold NL, CR in H; cbn in H; discriminate.
+Qed.
+
+Record stanza_ok (t : term) (parents : list (N * bytes)) (extras : list (bytes * bytes)) : Prop := {
+  so_id : t_id t <= U32_MAX;
+  so_repl : forall r, t_repl t = Some r -> r <= U32_MAX;
+  so_name : clean (t_name t);
+  so_parents : Forall (fun p => fst p <= U32_MAX /\ clean (snd p)) parents;
+  so_extras : Forall (fun e => other_key (fst e) /\ clean (fst e) /\ clean (snd e)) extras
+}.
+
+Lemma stanza_lines_clean t parents extras : stanza_ok t parents extras -> Forall clean (stanza_lines t parents extras).
+Proof.
+  intros [Hid Hrepl Hname Hpar Hex]. unfold stanza_lines.
+  constructor; [apply clean_kv; [apply clean_const; reflexivity|apply clean_show]|].
+  constructor; [apply clean_kv; [apply clean_const; reflexivity|exact Hname]|].
+  apply Forall_app. split.
+  - apply Forall_forall. intros l Hl. apply in_map_iff in Hl as [e [<- He]].
+    rewrite Forall_forall in Hex. destruct (Hex e He) as [_ [H1 H2]]. apply clean_kv; assumption.
+  - apply Forall_app. split.
+    + apply Forall_forall. intros l Hl. apply in_map_iff in Hl as [p [<- Hp]].
+      rewrite Forall_forall in Hpar. destruct (Hpar p Hp) as [_ H2].
+      apply clean_kv; [apply clean_const; reflexivity|].
+      apply clean_app; [apply clean_show|]. apply clean_app; [apply clean_const; reflexivity|exact H2].
+    + apply Forall_app. split.
+      * destruct (t_obsolete t); constructor; [|constructor]. apply clean_kv; apply clean_const; reflexivity.
+      * destruct (t_repl t); constructor; [|constructor]. apply clean_kv; [apply clean_const; reflexivity|apply clean_show].
+Qed.
+
+Lemma last_In' {A} (l : list A) d : l <> [] -> In (last l d) l.
+Proof.
+  induction l as [|x l IH]; intros H; [congruence|]. destruct l as [|y l']; [left; reflexivity|].
+  right. apply IH. discriminate.
+Qed.
+
+Lemma stanza_lines_join t parents extras : stanza_ok t parents extras ->
+  lines (join_byte NL (stanza_lines t parents extras)) = stanza_lines t parents extras.
+Proof.
+  intros Hok. apply lines_join.
+  - discriminate.
+  - eapply Forall_impl; [|apply stanza_lines_clean, Hok]. intros l. apply clean_plain.
+  - (* every line contains ": ": none is empty *)
+    assert (forall l, In l (stanza_lines t parents extras) -> l <> []) as Hne.
+    { intros l Hl. unfold stanza_lines in Hl.
+      assert (forall k v, kv k v <> []) as K by (intros k v; unfold kv; destruct k; discriminate).
+      destruct Hl as [<-|[<-|Hl]]; try apply K.
+      apply in_app_iff in Hl as [Hl|Hl]; [apply in_map_iff in Hl as [e [<- _]]; apply K|].
+      apply in_app_iff in Hl as [Hl|Hl]; [apply in_map_iff in Hl as [p [<- _]]; apply K|].
+      apply in_app_iff in Hl as [Hl|Hl].
+      - destruct (t_obsolete t); [destruct Hl as [<-|[]]; apply K|destruct Hl].
+      - destruct (t_repl t); [destruct Hl as [<-|[]]; apply K|destruct Hl]. }
+    apply Hne. apply last_In'. discriminate.
+Qed.
+
+(* term_from_obo on a rendered stanza: the term with its name, obsolete flag and replacement *)
+Theorem term_from_obo_render t parents extras : stanza_ok t parents extras ->
+  term_from_obo (join_byte NL (stanza_lines t parents extras)) =
+    Ok (Some (set_flags (t_obsolete t) (t_repl t) (new_term (t_name t) (t_id t)))).
+Proof.
+  intros Hok. unfold term_from_obo. rewrite (stanza_lines_join t parents extras Hok).
+  rewrite term_fields_render by (eapply Forall_impl; [|exact (so_extras _ _ _ Hok)]; intros e [H _]; exact H).
+  cbn [bind]. rewrite (parse_show _ (so_id _ _ _ Hok)).
+  destruct (t_obsolete t); destruct (t_repl t) as [r|] eqn:Er;
+    try rewrite (parse_show r (so_repl _ _ _ Hok r Er)); reflexivity.
+Qed.
+
+(* ---------------- add_connections on a rendered stanza ---------------- *)
+
+Lemma strip_prefix_other_key k0 : forall k v, ~ In 58 k0 -> ~ In 58 k -> k <> k0 ->
+  strip_prefix (k0 ++ [58; 32]) (kv k v) = None.
+Proof.
+  induction k0 as [|c k0 IH]; intros k v H0 Hk Hne.
+  - destruct k as [|d k]; [congruence|]. cbn [app strip_prefix kv].
+    destruct (N.eqb_spec 58 d) as [E|E]; [exfalso; apply Hk; left; symmetry; exact E|reflexivity].
+  - destruct k as [|d k].
+    + cbn [app strip_prefix kv]. destruct (N.eqb_spec c 58) as [E|E]; [exfalso; apply H0; left; exact E|reflexivity].
+    + cbn [app strip_prefix]. unfold kv. cbn [app]. destruct (N.eqb_spec c d) as [E|E]; [|reflexivity].
+      apply (IH k v); [intros H; apply H0; right; exact H|intros H; apply Hk; right; exact H|congruence].
+Qed.
+
+Lemma isa_prefix : OBO_ISA_PREFIX = s_is_a ++ [58; 32].
+Proof. reflexivity. Qed.
+
+Definition conn_step (id : N) (acc : list (N * N)) (line : bytes) : res (list (N * N)) :=
+  match strip_prefix OBO_ISA_PREFIX line with
+  | None => Ok acc
+  | Some v => match split_once1 32 v [] with
+              | None => Ok acc
+              | Some (tid, _) => match parse_id tid with
+                                 | Ok p => Ok (acc ++ [(id, p)])
+                                 | _ => Panic
+                                 end
+              end
+  end.
+
+Lemma connections_is_fold stanza id : connections_of stanza id = foldM (conn_step id) (lines stanza) [].
+Proof. reflexivity. Qed.
+
+Lemma conn_skip id (ls : list bytes) : forall acc,
+  Forall (fun l => strip_prefix OBO_ISA_PREFIX l = None) ls -> foldM (conn_step id) ls acc = Ok acc.
+Proof.
+  induction ls as [|l ls IH]; intros acc H; [reflexivity|]. inversion H as [|? ? Hl Hr]; subst.
+  cbn [foldM]. unfold conn_step at 1. rewrite Hl. cbn [bind]. apply IH, Hr.
+Qed.
+
+Lemma conn_isa id (ps : list (N * bytes)) : forall acc, Forall (fun p => fst p <= U32_MAX) ps ->
+  foldM (conn_step id) (map (fun p => kv s_is_a (show (fst p) ++ s_bang ++ snd p)) ps) acc
+  = Ok (acc ++ map (fun p => (id, fst p)) ps).
+Proof.
+  induction ps as [|[p lab] ps IH]; intros acc H; cbn [map foldM]; [rewrite app_nil_r; reflexivity|].
+  inversion H as [|? ? Hp Hr]; subst. cbn [fst snd] in *.
+  unfold conn_step at 1. rewrite isa_prefix.
+  replace (kv s_is_a (show p ++ s_bang ++ lab)) with ((s_is_a ++ [58; 32]) ++ (show p ++ s_bang ++ lab))
+    by (unfold kv; rewrite <- app_assoc; reflexivity).
+  rewrite strip_prefix_app.
+  change (show p ++ s_bang ++ lab) with (show p ++ 32 :: ([33; 32] ++ lab)).
+  rewrite (isa_line_id (show p) _ (proj2 (clean_show p))). rewrite (parse_show p Hp). cbn [bind].
+  rewrite (IH _ Hr), <- app_assoc. reflexivity.
+Qed.
+
+Lemma foldM_app {A S} (f : S -> A -> res S) l1 l2 s : foldM f (l1 ++ l2) s = do s' <- foldM f l1 s ;; foldM f l2 s'.
+Proof.
+  revert s. induction l1 as [|x l1 IH]; intros s; cbn [app foldM]; [reflexivity|].
+  destruct (f s x); cbn [bind]; try reflexivity. apply IH.
+Qed.
+
+(* add_connections on a rendered stanza: exactly one (term, parent) pair per is_a line *)
+Theorem connections_render t parents extras : stanza_ok t parents extras ->
+  connections_of (join_byte NL (stanza_lines t parents extras)) (t_id t)
+  = Ok (map (fun p => (t_id t, fst p)) parents).
+Proof.
+  intros Hok. rewrite connections_is_fold, (stanza_lines_join t parents extras Hok). unfold stanza_lines.
+  assert (forall k v, ~ In 58 k -> k <> s_is_a -> strip_prefix OBO_ISA_PREFIX (kv k v) = None) as Hskip.
+  { intros k v H1 H2. rewrite isa_prefix. apply strip_prefix_other_key; [|exact H1|exact H2].
+    unfold s_is_a. cbn. intuition discriminate. }
+  cbn [foldM]. unfold conn_step at 1. rewrite Hskip by (unfold s_id, s_is_a; cbn; intuition discriminate). cbn [bind].
+  unfold conn_step at 1. rewrite Hskip by (unfold s_name, s_is_a; cbn; intuition discriminate). cbn [bind].
+  rewrite foldM_app, conn_skip.
+  2:{ apply Forall_forall. intros l Hl. apply in_map_iff in Hl as [e [<- He]].
+      pose proof (so_extras _ _ _ Hok) as Hex. rewrite Forall_forall in Hex. destruct (Hex e He) as [[[H58 _] Hne] _].
+      apply Hskip; assumption. }
+  cbn [bind]. rewrite foldM_app, conn_isa.
+  2:{ eapply Forall_impl; [|exact (so_parents _ _ _ Hok)]. intros p [H _]. exact H. }
+  cbn [bind app]. apply conn_skip. apply Forall_app. split.
+  - destruct (t_obsolete t); constructor; [|constructor]. apply Hskip; [unfold s_is_obsolete|unfold s_is_obsolete, s_is_a]; cbn; intuition discriminate.
+  - destruct (t_repl t); constructor; [|constructor]. apply Hskip; [unfold s_replaced_by|unfold s_replaced_by, s_is_a]; cbn; intuition discriminate.
+Qed.
+
+(* ------------------------------------------------------------------------------------------ *)
+(* the file: stanzas separated by one blank line                                                *)
+(* ------------------------------------------------------------------------------------------ *)
+
+Fixpoint join_blank (cs : list bytes) : bytes :=
+  match cs with
+  | [] => []
+  | [c] => c
+  | c :: t => c ++ NL :: NL :: join_blank t
+  end.
+
+(* a chunk that can be told apart: no blank line inside, does not end with a line break *)
+Fixpoint no_blank (s : bytes) : Prop :=
+  match s with
+  | [] => True
+  | c :: t => match t with
+              | c2 :: _ => ~ (c = NL /\ c2 = NL) /\ no_blank t
+              | [] => c <> NL
+              end
+  end.
+
+Lemma split_blank_chunk c : forall cur rest, c <> [] -> no_blank c ->
+  split_blank (c ++ NL :: NL :: rest) cur = (rev cur ++ c) :: split_blank rest [].
+Proof.
+  induction c as [|x c IH]; intros cur rest Hne Hnb; [congruence|].
+  destruct c as [|y c'].
+  - (* last byte of the chunk: x <> NL *)
+    cbn [app]. cbn [no_blank] in Hnb.
+    change (split_blank (x :: NL :: NL :: rest) cur) with
+      (if (x =? NL) && (NL =? NL) then rev cur :: split_blank (NL :: rest) [] else split_blank (NL :: NL :: rest) (x :: cur)).
+    destruct (N.eqb_spec x NL) as [E|E]; [contradiction|]. cbn [andb].
+    change (split_blank (NL :: NL :: rest) (x :: cur)) with
+      (if (NL =? NL) && (NL =? NL) then rev (x :: cur) :: split_blank rest [] else split_blank (NL :: rest) (NL :: x :: cur)).
+    cbn [N.eqb Pos.eqb andb rev]. unfold NL. cbn [N.eqb Pos.eqb andb]. reflexivity.
+  - cbn [no_blank] in Hnb. destruct Hnb as [Hxy Hnb].
+    change ((x :: y :: c') ++ NL :: NL :: rest) with (x :: (y :: c') ++ NL :: NL :: rest).
+    change (split_blank (x :: (y :: c') ++ NL :: NL :: rest) cur) with
+      (if (x =? NL) && (y =? NL) then rev cur :: split_blank (c' ++ NL :: NL :: rest) []
+       else split_blank ((y :: c') ++ NL :: NL :: rest) (x :: cur)).
+    destruct ((x =? NL) && (y =? NL)) eqn:E.
+    + exfalso. apply andb_true_iff in E as [E1 E2]. apply N.eqb_eq in E1, E2. apply Hxy. auto.
+    + rewrite (IH (x :: cur) rest ltac:(discriminate) Hnb). cbn [rev]. rewrite <- app_assoc. reflexivity.
+Qed.
+
+Lemma split_blank_last c : forall cur, no_blank c -> split_blank c cur = [rev cur ++ c].
+Proof.
+  induction c as [|x c IH]; intros cur Hnb; [cbn; rewrite app_nil_r; reflexivity|].
+  destruct c as [|y c'].
+  - cbn [split_blank rev]. reflexivity.
+  - cbn [no_blank] in Hnb. destruct Hnb as [Hxy Hnb].
+    change (split_blank (x :: y :: c') cur) with
+      (if (x =? NL) && (y =? NL) then rev cur :: split_blank c' [] else split_blank (y :: c') (x :: cur)).
+    destruct ((x =? NL) && (y =? NL)) eqn:E.
+    + exfalso. apply andb_true_iff in E as [E1 E2]. apply N.eqb_eq in E1, E2. apply Hxy. auto.
+    + rewrite (IH (x :: cur) Hnb). cbn [rev]. rewrite <- app_assoc. reflexivity.
+Qed.
+
+(* split("\n\n") inverts joining by one blank line *)
+Theorem split_blank_join cs : cs <> [] -> Forall (fun c => c <> [] /\ no_blank c) cs ->
+  split_blank (join_blank cs) [] = cs.
+Proof.
+  induction cs as [|c t IH]; intros Hne Hall; [congruence|].
+  inversion Hall as [|? ? [Hc Hnb] Ht]; subst. destruct t as [|c2 t'].
+  - cbn [join_blank]. rewrite split_blank_last by exact Hnb. reflexivity.
+  - change (join_blank (c :: c2 :: t')) with (c ++ NL :: NL :: join_blank (c2 :: t')).
+    rewrite split_blank_chunk by assumption. cbn [rev app]. f_equal. apply IH; [discriminate|exact Ht].
+Qed.
+
+(* ---------------- rendered chunks can be told apart ---------------- *)
+
+Lemma no_blank_cons_nonNL x s : x <> NL -> no_blank s -> no_blank (x :: s).
+Proof. intros Hx Hs. destruct s as [|y s']; cbn [no_blank]; [exact Hx|]. split; [intros [E _]; contradiction|exact Hs]. Qed.
+
+Lemma no_blank_text p : ~ In NL p -> p <> [] -> no_blank p.
+Proof.
+  induction p as [|x p IH]; intros Hn Hne; [congruence|]. destruct p as [|y p'].
+  - cbn [no_blank]. intros E. apply Hn. left. exact E.
+  - apply no_blank_cons_nonNL; [intros E; apply Hn; left; exact E|]. apply IH; [intros H; apply Hn; right; exact H|discriminate].
+Qed.
+
+(* text, one line break, then something that does not start with a line break *)
+Lemma no_blank_line_then p s : ~ In NL p -> p <> [] -> no_blank s -> (exists y s', s = y :: s' /\ y <> NL) ->
+  no_blank (p ++ NL :: s).
+Proof.
+  intros Hn Hne Hs [y [s' [-> Hy]]]. induction p as [|x p IH]; [congruence|].
+  assert (x <> NL) as Hx by (intros E; apply Hn; left; exact E).
+  destruct p as [|x2 p'].
+  - cbn [app]. cbn [no_blank]. split; [intros [E _]; contradiction|]. split; [intros [_ E]; contradiction|exact Hs].
+  - change ((x :: x2 :: p') ++ NL :: y :: s') with (x :: (x2 :: p') ++ NL :: y :: s').
+    apply no_blank_cons_nonNL; [exact Hx|]. apply IH; [intros H; apply Hn; right; exact H|discriminate].
+Qed.
+
+Lemma join_lines_no_blank ls : ls <> [] -> Forall (fun l => ~ In NL l /\ l <> []) ls ->
+  no_blank (join_byte NL ls) /\ exists y s', join_byte NL ls = y :: s' /\ y <> NL.
+Proof.
+  induction ls as [|l t IH]; intros Hne Hall; [congruence|].
+  inversion Hall as [|? ? [Hn Hl] Ht]; subst. destruct t as [|l2 t'].
+  - cbn [join_byte]. split; [apply no_blank_text; assumption|].
+    destruct l as [|y s']; [congruence|]. exists y, s'. split; [reflexivity|]. intros E. apply Hn. left. exact E.
+  - change (join_byte NL (l :: l2 :: t')) with (l ++ NL :: join_byte NL (l2 :: t')).
+    destruct (IH ltac:(discriminate) Ht) as [Hnb Hhd]. split.
+    + apply no_blank_line_then; assumption.
+    + destruct l as [|y s']; [congruence|]. exists y, (s' ++ NL :: join_byte NL (l2 :: t')). split; [reflexivity|].
+      intros E. apply Hn. left. exact E.
+Qed.
+
+Definition term_chunk (t : term) (parents : list (N * bytes)) (extras : list (bytes * bytes)) : bytes :=
+  term_header_nl ++ join_byte NL (stanza_lines t parents extras).
+
+Lemma stanza_lines_nonempty_clean t parents extras : stanza_ok t parents extras ->
+  Forall (fun l => ~ In NL l /\ l <> []) (stanza_lines t parents extras).
+Proof.
+  intros Hok. pose proof (stanza_lines_clean t parents extras Hok) as Hc.
+  apply Forall_forall. intros l Hl. rewrite Forall_forall in Hc. split; [apply (Hc l Hl)|].
+  (* every line is `k: v` *)
+  unfold stanza_lines in Hl.
+  assert (forall k v, kv k v <> []) as K by (intros k v; unfold kv; destruct k; discriminate).
+  destruct Hl as [<-|[<-|Hl]]; try apply K.
+  apply in_app_iff in Hl as [Hl|Hl]; [apply in_map_iff in Hl as [e [<- _]]; apply K|].
+  apply in_app_iff in Hl as [Hl|Hl]; [apply in_map_iff in Hl as [p [<- _]]; apply K|].
+  apply in_app_iff in Hl as [Hl|Hl].
+  - destruct (t_obsolete t); [destruct Hl as [<-|[]]; apply K|destruct Hl].
+  - destruct (t_repl t); [destruct Hl as [<-|[]]; apply K|destruct Hl].
+Qed.
+
+Lemma term_chunk_ok t parents extras : stanza_ok t parents extras ->
+  term_chunk t parents extras <> [] /\ no_blank (term_chunk t parents extras).
+Proof.
+  intros Hok. split; [unfold term_chunk, term_header_nl, OBO_TERM_HEADER; discriminate|].
+  unfold term_chunk, term_header_nl. rewrite <- app_assoc. cbn [app].
+  destruct (join_lines_no_blank (stanza_lines t parents extras) ltac:(discriminate) (stanza_lines_nonempty_clean _ _ _ Hok)) as [Hnb Hhd].
+  apply no_blank_line_then; [unfold OBO_TERM_HEADER, NL; cbn; intuition discriminate|discriminate|exact Hnb|exact Hhd].
+Qed.
+
+(* ---------------- read_obo_file on a rendered file ---------------- *)
+
+(* what read_obo does for one [Term] chunk: add the term, remember its links *)
+Definition obo_step (st : onto * list (N * N)) (x : term * list (N * bytes) * list (bytes * bytes)) : res (onto * list (N * N)) :=
+  let '(t, parents, extras) := x in
+  do o2 <- b_add_term (set_flags (t_obsolete t) (t_repl t) (new_term (t_name t) (t_id t))) (fst st) ;;
+  Ok (o2, snd st ++ map (fun p => (t_id t, fst p)) parents).
+
+Definition read_obo_chunks := foldM (fun (st : onto * list (N * N)) (chunk : bytes) =>
+             let (o1, conns) := st in
+             match strip_prefix term_header_nl chunk with
+             | Some stanza =>
+                 do t <- term_from_obo stanza ;;
+                 match t with
+                 | Some raw =>
+                     do o2 <- b_add_term raw o1 ;;
+                     do cs <- connections_of stanza (t_id raw) ;;
+                     Ok (o2, conns ++ cs)
+                 | None => Ok st
+                 end
+             | None =>
+                 if starts_with OBO_HEADER_START chunk then
+                   do v <- version_from_obo (lines chunk) ;;
+                   Ok (set_version (match v with Some x => x | None => (0, 0, 0) end) o1, conns)
+                 else Ok st
+             end).
+
+Lemma set_flags_id o r t : t_id (set_flags o r t) = t_id t.
+Proof. destruct t; reflexivity. Qed.
+
+(* the [Term] stanzas of a rendered file, in file order: each adds its term and its links *)
+Theorem read_obo_terms stanzas : forall st,
+  Forall (fun x : term * list (N * bytes) * list (bytes * bytes) => let '(t, ps, ex) := x in stanza_ok t ps ex) stanzas ->
+  read_obo_chunks (map (fun x : term * list (N * bytes) * list (bytes * bytes) => let '(t, ps, ex) := x in term_chunk t ps ex) stanzas) st
+  = foldM obo_step stanzas st.
+Proof.
+  induction stanzas as [|[[t ps] ex] stanzas IH]; intros [o1 conns] Hall; [reflexivity|].
+  inversion Hall as [|? ? Hok Hrest]; subst. cbn [map]. unfold read_obo_chunks. cbn [foldM].
+  unfold term_chunk at 1. rewrite strip_prefix_app.
+  rewrite (term_from_obo_render t ps ex Hok). cbn [bind].
+  unfold obo_step at 1. cbn [fst snd].
+  destruct (b_add_term (set_flags (t_obsolete t) (t_repl t) (new_term (t_name t) (t_id t))) o1) as [o2| | |]; cbn [bind]; try reflexivity.
+  rewrite set_flags_id. cbn [new_term t_id]. rewrite (connections_render t ps ex Hok). cbn [bind].
+  apply (IH (o2, conns ++ map (fun p => (t_id t, fst p)) ps) Hrest).
+Qed.
+
+Record header_ok (h : bytes) : Prop := {
+  h_nonempty : h <> [];
+  h_no_blank : no_blank h;
+  h_not_term : strip_prefix term_header_nl h = None;
+  h_start : starts_with OBO_HEADER_START h = true
+}.
+
+(* READ_OBO_FILE ON A RENDERED hp.obo: a header chunk followed by [Term] stanzas separated by one
+   blank line each (any number, any order) — the release version comes from the header, every
+   stanza adds its term (first occurrence of an id wins, as in Arena::insert) and exactly its
+   is_a links, applied after all terms are known *)
+Theorem read_obo_render header stanzas o : header_ok header ->
+  Forall (fun x : term * list (N * bytes) * list (bytes * bytes) => let '(t, ps, ex) := x in stanza_ok t ps ex) stanzas ->
+  read_obo (join_blank (header :: map (fun x : term * list (N * bytes) * list (bytes * bytes) => let '(t, ps, ex) := x in term_chunk t ps ex) stanzas)) o
+  = do v <- version_from_obo (lines header) ;;
+    do r <- foldM obo_step stanzas (set_version (match v with Some x => x | None => (0, 0, 0) end) o, []) ;;
+    let (o1, conns) := r : onto * list (N * N) in
+    do a <- foldM (fun a (cp : N * N) => b_add_parent_unchecked (snd cp) (fst cp) a) conns (o_arena o1) ;;
+    Ok (set_arena a o1).
+Proof.
+  intros Hh Hall. unfold read_obo.
+  rewrite split_blank_join.
+  2: discriminate.
+  2:{ constructor; [split; [apply (h_nonempty _ Hh)|apply (h_no_blank _ Hh)]|].
+      apply Forall_forall. intros c Hc. apply in_map_iff in Hc as [[[t ps] ex] [<- Hx]].
+      rewrite Forall_forall in Hall. apply (term_chunk_ok t ps ex (Hall _ Hx)). }
+  change (foldM _ (header :: ?cs) (o, [])) with (read_obo_chunks (header :: cs) (o, [])).
+  unfold read_obo_chunks at 1. cbn [foldM]. rewrite (h_not_term _ Hh), (h_start _ Hh).
+  destruct (version_from_obo (lines header)) as [v| | |]; cbn [bind]; try reflexivity.
+  change (foldM _ (map ?g stanzas) ?st) with (read_obo_chunks (map g stanzas) st).
+  rewrite (read_obo_terms stanzas _ Hall). reflexivity.
+Qed.
+
+(* the premises are satisfiable: the header every hp.obo starts with, and a stanza with a parent
+   link and an ignored line *)
+Example header_ok_example : header_ok (OBO_HEADER_START ++ [NL; 120; 58; 32; 121]).
+Proof.
+  split; [discriminate| |reflexivity|reflexivity].
+  vm_compute. repeat split; intros H; try discriminate; destruct H as [H1 H2]; discriminate.
+Qed.
+
+Example stanza_ok_example :
+  stanza_ok (set_flags true (Some 7) (new_term [65; 58; 32; 66] 118)) [(1, [120])] [([100; 101; 102], [122])].
+Proof.
+  assert (forall l : bytes, forallb (fun c => negb (c =? NL) && negb (c =? CR)) l = true -> clean l) as Hc.
+  { intros l H. rewrite forallb_forall in H. split; intros Hin; apply H in Hin; vm_compute in Hin; discriminate. }
+  split.
+  - vm_compute; discriminate.
+  - intros r H. vm_compute in H. injection H as <-. vm_compute; discriminate.
+  - apply Hc. reflexivity.
+  - constructor; [|constructor]. split; [vm_compute; discriminate|apply Hc; reflexivity].
+  - constructor; [|constructor]. split; [|split; apply Hc; reflexivity].
+    split; [|discriminate]. split; [intros H; vm_compute in H; repeat (destruct H as [H|H]; [discriminate|]); exact H|].
+    repeat split; discriminate.
+Qed.
